@@ -68,7 +68,7 @@ CHECKS = {
     text='The sequence of public API calls is a vector of solver variables; the symbolic executor explores every sequence up to the length bound over a small universe designed around name clashes, id re-use and ill-typed arguments, pruning at states already '
          'explored at least as deeply. After every call the representation invariant is checked, a call that raised must leave every public observation unchanged, and copies must be equal, observation-equal (label tables, domains, factors) and independent. '
          'Right level: the property quantifies over call histories; bounded exhaustive exploration with state merging covers every short history, which is where validation-order bugs live.',
-    note='Bounds: sequences of <=3 (quick) / <=4 (thorough) calls on Graph and one more on HRG/FGG; universe: labels L,M; node ids a,(b),implicit; edge labels f:(L), f:(M), g:(L,L), X:(L), X:(M), c:() and, for rules only, Y:(L), Y:(M) (a nonterminal name new to the grammar; X is always the start symbol); <=3 nodes, <=2 edges, <=3 rules; 10 rule shapes. '
+    note='Bounds: sequences of <=3 calls on Graph and <=4 on HRG/FGG in both tiers (the thorough tier enlarges the universe of ids and node references: about 350 calls per step instead of 175); universe: labels L,M; node ids a,(b),implicit; edge labels f:(L), f:(M), g:(L,L), X:(L), X:(M), c:() and, for rules only, Y:(L), Y:(M) (a nonterminal name new to the grammar; X is always the start symbol); <=3 nodes, <=2 edges, <=3 rules; 10 rule shapes. '
          'Not covered: remove/new convenience wrappers beyond those listed, longer histories, == transitivity on triples.',
     technique='bounded symbolic execution over API call sequences (z3 path forking), invariant + frame checks', design='5/C16'),
  'C05': dict(
